@@ -614,6 +614,11 @@ def do_codegen(codegen, *mvs) -> CodegenOutput:
     res = {bin: res[bin] if isinstance(res, dict) else getattr(res, canon)
            for canon, bin in algebra.canon2bin.items() if bin in res.keys()}
 
+    if algebra.graded and res:
+        # In graded mode results store complete grades: blades that receive no term are explicit zeros.
+        grades = tuple(sorted({format(k, 'b').count('1') for k in res}))
+        res = {k: res.get(k, 0) for k in algebra.indices_for_grades[grades]}
+
     if not algebra.cse and any(isinstance(v, str) for v in res.values()):
         return func_builder(res, *mvs, funcname=funcname)
 
